@@ -56,6 +56,14 @@ CHECKS = {
    text="Exhaustive crash-point enumeration under the process-crash model: a child process runs a history of 3 (quick) / 4 (thorough) flushes with pairwise distinct stores and registrations under an LD_PRELOAD shim that kills it immediately before each mutating file-system call (plus torn variants of every *.tmp write); from every distinct directory state left behind a second run (load, mutate, flush, mutate, flush) is killed at each of its calls again; after every crash the real load() must recover exactly the last completed or the in-progress flush with that same flush's registrations applied.",
    note="Completed file operations persist in order, only *.tmp files can be torn (the property's crash model); synchronous flush variant; crash points at the libc boundary.",
    technique="exhaustive fault (crash-point) enumeration of the real flush/load code with an LD_PRELOAD process-kill injector, two crash levels"),
+ "C14": dict(cat="exploration", engine="wbmc-core/c14", ref="DESIGN.md §3 C14",
+   text="Exhaustive enumeration of every variant of ClientMessage (23), ServerMessage (8) and the cluster sync messages (LeaderSyncMessage, ClientWriteCommand, StateSync built by the real export) over small field alphabets (u64-boundary ids and versions, keys with empty/unicode/newline/quote/U+2028, JSON terms of depth <= 2 whose object keys collide with envelope field names, optional fields present/absent): the encoding must be one line, deterministic, accepted by write_line_and_flush, and decode (from_str and the real receive_msg line reader) to an equal message.",
+   note="Equality is structural (PartialEq of the message types; StoreNode equality for StateSync).",
+   technique="exhaustive enumeration of a bounded input space through the real codec (round trip oracle)"),
+ "C16": dict(cat="model_checking", engine="wbmc-core/tree", ref="DESIGN.md §3 C16",
+   text="Stateless enumeration of all sequences (depth 6 quick / 8 thorough) of set/delete events on two keys and clock advances of I/2 and I handed to the real PStateAggregator on a paused tokio clock: concatenated batches must contain, per key, exactly the handed-in events in order, no key twice in a batch, and every event must be delivered within the interval; plus all sequences of writes/deletes/advances on a live in-process session comparing an aggregated and a plain psubscribe on the same pattern (snapshot first and unbatched, then equal per-key streams).",
+   note="Timer-vs-event orders are produced as different step sequences (one stimulus outstanding at a time); delays observed with 10 ms resolution; the connection can always take messages.",
+   technique="stateless bounded-exhaustive exploration of the real aggregator on a paused clock (all event/timer sequences up to depth 6-8)"),
 }
 
 NOT_YET = {}
